@@ -114,6 +114,7 @@ class Shared:
         self.log: list = []  # invocations of the event being applied: (act, clock reading, now reading)
         self.handles: list = []  # pending (act, disposable) in insertion order
         self.rel0, self.rel1 = rel0, rel1
+        self.rel2 = rel1 + rel1
         self.invocations = 0
 
 
@@ -144,6 +145,8 @@ class Act:
                 hs.pop(0)[1].dispose()
         elif s == "st":
             scheduler.stop()
+        elif s == "sl":
+            scheduler.sleep(c.rel2)  # a running action moves the clock itself
         return None
 
 
@@ -160,6 +163,7 @@ class World:
         self.trace: list = []  # per event: (event, [(script, clock offset)], clock after)
         self.last_invoked = 0
         self.last_outcome = None
+        self.conflict = False
 
     # -- model ---------------------------------------------------------------
     def m_enqueue(self, due: float, act: Act) -> None:
@@ -199,8 +203,16 @@ class World:
                     self.m_remove(self.m_pending[0])
             elif s == "st":
                 break
+            elif s == "sl":
+                self.m_clock += 2
+        self.conflict = False
         if target is not None:
-            self.m_clock = target
+            if self.m_clock > target:
+                # an action slept past the target: "leaves the clock at the target" and "the clock never moves backwards"
+                # cannot both hold; the statement does not say which wins, so the final clock of this event is not judged
+                self.conflict = True
+            else:
+                self.m_clock = target
         return expected
 
     # -- one event on both ---------------------------------------------------
@@ -208,6 +220,7 @@ class World:
         k, sched, c = self.kind, self.sched, self.c
         c.log.clear()
         c.invocations = 0
+        self.conflict = False
         before = sched.clock
         pend_before = list(self.m_pending)
         name = ev[0]
@@ -237,10 +250,12 @@ class World:
                 target = self.m_clock + ev[1]
                 sched.advance_to(k.T(target))
                 expected = self.m_run(target)
+                exact_clock = not self.conflict
             elif name == "adv_by":
                 target = self.m_clock + ev[1]
                 sched.advance_by(k.D(ev[1]))
                 expected = self.m_run(target)
+                exact_clock = not self.conflict
             elif name == "sleep":
                 sched.sleep(k.D(ev[1]))
                 self.m_clock += ev[1]
@@ -266,7 +281,8 @@ class World:
             return
         self.problem = self.judge(ev, log, expected, before, after, pend_before, exact_clock)
         if not exact_clock and self.problem is None:
-            self.m_clock = max(self.m_clock, k.off(after))  # start(): the final clock is not pinned; follow the SUT
+            # start(): the final clock is not pinned; sleep past an advance target: not judged.  Follow the SUT.
+            self.m_clock = k.off(after) if getattr(self, "conflict", False) else max(self.m_clock, k.off(after))
 
     def judge(self, ev, log, expected, before, after, pend_before, exact_clock):
         k = self.kind
@@ -304,7 +320,7 @@ class World:
                 return ("clock-at-invocation", f"action ({a.script}) due at model time {x} saw clock {t!r}, expected {k.T(x)!r}")
             if now != self.sched.to_datetime(k.T(x)):
                 return ("now-at-invocation", f"action ({a.script}) saw now={now!r}, expected {self.sched.to_datetime(k.T(x))!r}")
-        if after < prev:
+        if after < prev and not getattr(self, "conflict", False):
             return ("clock-backwards", f"clock went from {prev!r} to {after!r} at the end of {name}")
         if exact_clock:
             if after != k.T(self.m_clock):
@@ -349,7 +365,7 @@ def menu_full():
 
 def menu_medium():
     evs = []
-    for s in SCRIPTS:
+    for s in SCRIPTS + ("sl",):  # "sl": the action calls scheduler.sleep(2) itself
         evs += [("abs", 0, s), ("rel", 1, s)]
     evs += [("start",), ("adv_to", 1), ("adv_by", 2), ("sleep", 1)]
     return evs
